@@ -198,6 +198,9 @@ def stored_final_block(ck, P, R="ATOM/stored-final-block"):
 def run(ck):
     P = prog("K1")
     ck.configs.add("K1")
+    # round 10: a stream continued on a copy stays well-formed: the copy has the source's bit buffer
+    from . import c14 as _c14c
+    _c14c.copy_identity(ck, P)
     from .. import guards as _gas
     _gas.arm_store_before_suspend(ck, P, fields=("adler", "gzindex"))
     # the gzip trailer is the CRC of all the data: the portable fallback of Crc32Fold::fold continues the running value (round 9)
